@@ -411,6 +411,12 @@ def run(prop, res, tier, seed):
         if not os.path.exists(common.DRIVER_BIN):
             return
     replay_known(res, prop)
+    if prop == "C05":
+        # occurrences known by construction (records across modules, modules several path segments deep): each leads to its declaration
+        import p_refs
+        grng = random.Random(seed * 5 + 3)
+        p_refs.run_expected_groups(res, "C05", [p_refs.record_workspace(grng) for _ in range(6 if tier == "quick" else 60)] +
+                                   [p_refs.deep_module_workspace(grng) for _ in range(8 if tier == "quick" else 80)])
     run_c05(res, tier, seed, want_c18=(prop == "C18"))
     if prop == "C18":
         run_dot_completion(res, tier, seed)
